@@ -3,6 +3,7 @@
 CHECKS = {
     "C23": "hwrecovery",
     "C24": "hwrecovery",
+    "C25": "composite",
 }
 
 MC = "model_checking"
@@ -26,4 +27,10 @@ CLAIMS = {
             "latest commanded value is ever written; a write may be skipped only if the device already holds it).",
             "Trusted: fake device with per-call failure granularity (a call fails or succeeds as a whole, including its flushes).",
             "6.5, 7 C24"),
+    "C25": (MC, "TLA+ spec Composite.tla checked by TLC (split-and-reassemble algorithm = per-register reference); every edge "
+                "of its state graph replayed on the real Composite_Hardware; results and layer memories validated by CompositeTrace.tla",
+            "TLC enumerates every assignment of 3-4 registers to 2-4 layers, every batch order (length <= 3, reads with repeats) and "
+            "value, one and two successive batches, and checks the composite algorithm against the per-register reference; each "
+            "transition is executed on the real class over recording layers and TLC compares read results and every layer's memory.",
+            "Trusted: in-memory fake layers; write batches do not repeat a register.", "6.5, 7 C25"),
 }
